@@ -12,7 +12,8 @@ import os
 NATIVE = bool(os.environ.get("SYMX_NATIVE"))
 if not NATIVE:
     from symx import instrument
-    instrument.install({"insights.client.apps.ansible.playbook_verifier.serializer": {"strings": True}})
+    instrument.install({"insights.client.apps.ansible.playbook_verifier.serializer": {"strings": True},
+                        "insights.client.apps.ansible.playbook_verifier": {"strings": True}})
 
 from insights.client.apps.ansible import playbook_verifier as PV  # noqa: E402
 from insights.client.apps.ansible.playbook_verifier import serializer as SER  # noqa: E402
@@ -445,6 +446,13 @@ def _digest_pair(p, q):
 SEGS = ["hosts", "vars", "tasks", "name", "insights_signature", "x", "environment", "PATH", "0"]
 
 
+def cat_str(*parts):
+    out = ""
+    for p_ in parts:
+        out = out + p_
+    return out
+
+
 def exclusion_oracle(play, entries):
     """-> ("error",) or ("ok", resulting play)"""
     res = copy.deepcopy(play)
@@ -464,11 +472,36 @@ def exclusion_oracle(play, entries):
     return ("ok", res)
 
 
+KEY_ALPHA = "abs_x-. V"
+
+
 def make_o3():
     def o3(en):
-        mode = en.choice("mode", 4)
+        mode = en.choice("mode", 5)
         play = base_play(["n", "h", "sig", "x", "t"])
         play["environment"] = {"PATH": "/bin"}
+        if mode == 4:
+            # a play that carries one more top-level key, spelled like a dynamic label followed by 1-2 arbitrary characters
+            # (vars_files, hosts2, ...), and an exclusion request naming it, or a child of it: never one of the two labels
+            from props._cleaner import SymKeyDict
+            label = ["hosts", "vars"][en.choice("label", 2)]
+            key = cat_str(label, sstr.fresh_str(en, "suffix", 1 + en.choice("slen", 2), KEY_ALPHA))
+            child = en.flag("child")
+            sp = SymKeyDict(play)
+            sp["vars"] = SymKeyDict(play["vars"])
+            sp[key] = SymKeyDict({"fallback": "v"})
+            req = cat_str(["/", ""][en.choice("lead", 2)], key, "/fallback" if child else "")
+            first = [None, "/hosts"][en.choice("first", 2)]
+            sp["vars"]["insights_signature_exclude"] = req if first is None else cat_str(first, ",", req)
+            case = lambda mv: {"mode": "exclude-near-label", "key": mv.str(key), "request": mv.str(sp["vars"]["insights_signature_exclude"])}  # noqa
+            en.note_sample(case)
+            try:
+                PV.exclude_dynamic_elements(sp)
+                got = "ok"
+            except PlaybookVerificationError:
+                got = "error"
+            en.must_hold(got == "error", "exclusion-rules", case, detail="an exclusion request for a key that is neither hosts nor vars was accepted")
+            return
         if mode == 0:
             # exclusion requests built from the segment pool
             nent = 1 + en.choice("nent", 2)
@@ -618,6 +651,14 @@ def _native(case):
         except PlaybookVerificationError:
             got = ("error",)
         return [] if got == exp else ["exclusion %r: got %s expected %s" % (case["entries"], got[0], exp[0])]
+    if case["mode"] == "exclude-near-label":
+        play[case["key"]] = {"fallback": "v"}
+        play["vars"]["insights_signature_exclude"] = case["request"]
+        try:
+            PV.exclude_dynamic_elements(play)
+        except PlaybookVerificationError:
+            return []
+        return ["the exclusion request %r (key %r is neither hosts nor vars) was accepted" % (case["request"], case["key"])]
     if case["mode"] == "verify_play":
         w = case["which"]
         if w == "no-vars":
